@@ -268,7 +268,10 @@ def ones(shape, dtype=float, **kw):
         return _np.ones(shape, dtype=dtype, **kw)
     dt, symbolic = _resolve_dtype(dtype)
     if symbolic or (dt.kind == 'f' and _mode() == 'exact'):
-        one = R(Fraction(1)) if dt.kind == 'f' else (BV(1, dt) if dt.kind in 'iu' else True)
+        if dt.kind in 'iu' and getattr(dtype, 'rep', None) == 'z':
+            one = core.Z(1)        # integers held as unbounded Z (nominal dtype), as zeros() does
+        else:
+            one = R(Fraction(1)) if dt.kind == 'f' else (BV(1, dt) if dt.kind in 'iu' else True)
         return _fill(shape, one)
     if isinstance(shape, (Z, tuple, list)):
         shape = int(shape) if isinstance(shape, Z) else tuple(int(s) for s in shape)
